@@ -1613,10 +1613,14 @@ class DistTriangular(DistContinuous):
 
     def probability_density(self, x: float) -> float:
         """Returns the probability density value for value x."""
-        if x >= self._lo and x <= self._mode:
+        if x == self._mode:
+            # the peak; also covers a mode equal to lo or hi (one leg of
+            # the triangle has length 0, which made the leg formula 0/0)
+            return 2.0 / (self._hi - self._lo)
+        if x >= self._lo and x < self._mode:
             return (2.0 * (x - self._lo) / ((self._hi - self._lo) 
                     * (self._mode - self._lo)))
-        if x >= self._mode and x <= self._hi:
+        if x > self._mode and x <= self._hi:
             return (2.0 * (self._hi - x) / ((self._hi - self._lo) 
                     * (self._hi - self._mode)))
         return 0.0
